@@ -48,6 +48,7 @@ def run(ctx):
     escapes(ctx, cg, ef, entries)
     subscripts(ctx, cg, ef, entries)
     discarded_exceptions(ctx, cg, entries + [parser_entry])
+    handler_argument_subscripts(ctx, cg, ef, entries)
     eval_closure(ctx)
     from . import c15
     c15.membership_gate(ctx)
@@ -421,3 +422,69 @@ def eval_closure(ctx):
     missing = [n for n in allct if not ((sm.resolve_name(T.M_CONTAINERS, n) or (None,))[0] == 'class')]
     res.check(not missing, 'R-TAB.eval', f"{m.relpath}::eval(ct)", "every name in xsdcomplextype.__all__ resolves in containers.py", fail_detail=str(missing[:4]),
               key='R-TAB.eval|containers')
+
+
+# ---------------------------------------------------------------------------------------------- err.args[k] in handlers
+def _types_always_lists(sm) -> bool:
+    """Every _TYPES binding of the simple type classes is a list display (the shape guards of _check_value_type are dead)."""
+    for c in sm.subclasses('XSDSimpleType'):
+        if '_TYPES' in c.bindings and not isinstance(c.bindings['_TYPES'], ast.List):
+            return False
+    return True
+
+
+def handler_argument_subscripts(ctx, cg, ef, entries):
+    sm, res = ctx.sm, ctx.res
+    res.rule('R-EFF.handler-args', "a handler that subscripts the caught exception's args (err.args[k]) only ever catches exceptions constructed with more than k "
+             "arguments: a bare `raise X` reaching it would turn the rejection into an IndexError")
+    clo = cg.closure(entries)
+    n = 0
+    for f in sorted(clo, key=lambda x: x.fq):
+        if getattr(f, 'ctx_family', None):
+            continue
+        for t in [x for x in walk_local(f.node, include_root=False) if isinstance(x, ast.Try)]:
+            for h in t.handlers:
+                if not h.name:
+                    continue
+                ks = [const_value(sub.slice) for sub in ast.walk(h) if isinstance(sub, ast.Subscript) and unparse(sub.value) == f"{h.name}.args" and isinstance(const_value(sub.slice), int)]
+                if not ks:
+                    continue
+                need = max(ks) + 1
+                caught = ['*'] if h.type is None else ([unparse(x) for x in h.type.elts] if isinstance(h.type, ast.Tuple) else [unparse(h.type)])
+                # callees of the try body and their closure
+                callees = set()
+                for b in t.body:
+                    for c in ast.walk(b):
+                        for ed in cg.by_node.get(c, []):
+                            if ed.caller.node is f.node:
+                                callees.add(ed.callee)
+                sub_clo = cg.closure(list(callees))
+                for g_ in sorted(sub_clo, key=lambda x: x.fq):
+                    for r in ef.local_raises.get(g_, []):
+                        if not any(cn in ('*', 'Exception') or exc_is_subclass(sm, r.exc, cn) for cn in caught):
+                            continue
+                        if not isinstance(r.node, ast.Raise) or r.node.exc is None:
+                            continue
+                        n += 1
+                        nargs = len(r.node.exc.args) if isinstance(r.node.exc, ast.Call) else 0
+                        if nargs >= need:
+                            continue
+                        # a short raise: is it dead?  (the shape guards on self._TYPES, given that every _TYPES binding is a list)
+                        gg = cfg_of(g_.node)
+                        rn = next((x for x in gg.stmt_nodes() if x.ast is r.node), None)
+                        glabs = [(unparse(tt.ast), lab) for tt, lab in dom.guards_of(gg, rn) if tt.kind == 'test'] if rn is not None else []
+                        guards = [gt for gt, _ in glabs]
+                        from ..rules.atom import defensive_guard
+                        dead = any(lab == 'T' and 'self._TYPES' in gt and ('isinstance(self._TYPES, str)' in gt or 'self._TYPES == str' in gt or "hasattr(self._TYPES" in gt)
+                                   for gt, lab in glabs) and _types_always_lists(sm)
+                        if not dead and defensive_guard(r):
+                            res.assumed('R-EFF.handler-args', g_.fq, f"`{short(r.node, 40)}` is an internal shape guard of the tree infrastructure (assumed dead)", line=r.node.lineno)
+                            continue
+                        key = f"R-EFF.handler-args|{f.qualname}|{g_.qualname}|{norm_text(r.node, g_.node, 50)}|{'/'.join(guards)[:60]}"
+                        if dead:
+                            res.ok('R-EFF.handler-args', g_.fq, f"`{short(r.node, 40)}` (caught by {f.qualname}, which reads {h.name}.args[{need - 1}]) is dead: every _TYPES table is a list",
+                                   line=r.node.lineno)
+                        else:
+                            res.finding('R-EFF.handler-args', g_.fq, f"`{short(r.node, 50)}` carries a message: {f.qualname} catches it and reads {h.name}.args[{need - 1}]",
+                                        f"constructed with {nargs} argument(s); guards {guards}: IndexError ('tuple index out of range') instead of the rejection", key=key, line=r.node.lineno)
+    res.extra['raise_sites_reaching_args_subscripts'] = n
